@@ -241,6 +241,9 @@ fn growth_case<const M: usize>(rep: &mut Report, rng: &mut Rng, volume: usize, d
             halloc::set_refuse(halloc::Refuse::Above(t));
             let mut last = 0usize;
             for &(size, align) in &reqs {
+                if s2.chunks.len() >= 1500 {
+                    break; // the allocator's event ring holds 2048 events: dropping more chunks than that in one call would lose some
+                }
                 let before = s2.chunks.len();
                 s2.cur = format!("capped growth alloc({},{})", size, align);
                 s2.begin();
